@@ -56,8 +56,12 @@ def gen_cases(rng, tier):
                                nspecies=rng.choice([1, 2, 2, 3, 3, 4]), with_forms=not unique)
     if i % 12 == 7:
       model = spec.numeric_species(rng, model)      # species labelled '9', '10', '2', '100'
+    if i % 12 == 3 and groute == "potable":
+      model = spec.ion_labels(rng, model)           # species labelled 'F-', 'Na+', 'Ca2+': 'F-->Ca' in A->B keys
     if groute == "api":
       model["api_containers"] = rng.choice([None, None, "tuple", "generator", "map", "amend_after_write"])
+      if i % 3 == 1:
+        model["api_density_lookup"] = "on_demand"     # functions made on lookup: a new callable object per access
       if i % 4:
         # functions that return 0-d numpy arrays: fresh ones, integer-typed ones where the value is whole, memoised ones
         # (the same array object again for the same separation - it must come back unchanged)
@@ -98,7 +102,7 @@ def produce(ctx, model, route, rng):
     import atsim.potentials as ap
     pots, eams = routes.vary_containers(model, routes.eam_api_objects(model)[:2])
     nr, nrho = int(t["nr"]), int(t["nrho"])
-    fp = io.StringIO()
+    fp = routes.text_sink()
     fn = ap.writeSetFLFinnisSinclair if model["target"] == "setfl_fs" else ap.writeTABEAMFinnisSinclair
     # optional keyword arguments of the legacy writers: an explicit header cutoff (inside or outside the tabulated range)
     # and comment lines.  They belong to the header; no tabulated value may depend on them.
